@@ -52,100 +52,23 @@ mod verif_uri_kb {
         }
     }}
 
-    //@harness rsync_relative_join_kb Kb fn=Rsync::relative_to,Rsync::join,Rsync::is_parent_of bound="rsync://h/<m1>/a<p2> vs rsync://h/<m2>/<q>: four symbolic octets" timeout=1500
-    verif_harness!{ #[kani::unwind(20)] rsync_relative_join_kb; |m1: u8, m2: u8, p2: u8, q: u8, ql: bool| {
-        let p1 = b'a';
-        let a = Rsync::from_bytes(mkbytes([b'r', b's', b'y', b'n', b'c', b':', b'/', b'/', b'h', b'/', m1, b'/', p1, p2], 14));
-        let o = Rsync::from_bytes(mkbytes([b'r', b's', b'y', b'n', b'c', b':', b'/', b'/', b'h', b'/', m2, b'/', q], if ql { 13 } else { 12 }));
-        if let (Ok(a), Ok(o)) = (a, o) {
-            match a.relative_to(&o) {
-                Some(p) if !p.is_empty() => {
-                    let j = o.join(p.as_bytes());
-                    assert!(matches!(j, Ok(ref x) if *x == a), "joining the relative path onto the other URI gives back the original");
-                    assert!(o.is_parent_of(&a), "non-empty relative path <=> parent");
-                }
-                Some(_) => {
-                    // empty path exactly for URIs equal up to one trailing slash
-                    let (x, y) = (a.as_slice(), o.as_slice());
-                    assert!(a == o || (x.len() == y.len() + 1 && x[x.len() - 1] == b'/') || (y.len() == x.len() + 1 && y[y.len() - 1] == b'/'),
-                            "empty relative path only for URIs equal up to one trailing slash");
-                    assert!(!o.is_parent_of(&a), "is_parent_of is irreflexive up to trailing slash");
-                }
-                None => { assert!(!o.is_parent_of(&a), "no relative path => not a parent"); }
-            }
-            assert!(!a.is_parent_of(&a), "parent-of is irreflexive");
-        }
-    }}
-
-    //@harness rsync_join_parent_kb Kb fn=Rsync::join,Rsync::parent bound="base rsync://h/m/ or rsync://h/m/<b>, argument of 1-2 symbolic octets" timeout=1500
-    verif_harness!{ #[kani::unwind(20)] rsync_join_parent_kb; |b: u8, bl: bool, p: [u8; 2], n: usize| {
-        assume(n >= 1 && n <= 2);
-        let base = Rsync::from_bytes(mkbytes([b'r', b's', b'y', b'n', b'c', b':', b'/', b'/', b'h', b'/', b'm', b'/', b], if bl { 13 } else { 12 }));
-        if let Ok(base) = base {
-            if let Ok(j) = base.join(&p[..n]) {
-                // the result is itself a valid URI that re-parses to an equal value with the same authority
-                let re = Rsync::from_bytes(j.to_bytes());
-                assert!(matches!(re, Ok(ref x) if *x == j && x.module_start == j.module_start && x.path_start == j.path_start),
-                        "join result re-parses to an equal value with the same offsets");
-                assert!(j.authority() == base.authority() && j.module_name() == base.module_name(), "same authority and module");
-                assert!(base.is_parent_of(&j), "join(base, p) lies beneath base");
-                if let Some(par) = j.parent() {
-                    assert!(par.is_parent_of(&j), "a parent is a parent of its child");
-                    assert!(matches!(Rsync::from_bytes(par.to_bytes()), Ok(ref x) if *x == par), "parent re-parses");
-                }
-            }
-        }
-    }}
-
-    //@harness https_join_kb Kb fn=Https::from_bytes,Https::join,Https::parent bound="https://h<b1><b2> (0-2 symbolic octets) joined with 1 symbolic octet" timeout=1500
-    verif_harness!{ #[kani::unwind(20)] https_join_kb; |b: [u8; 2], bn: usize, p: [u8; 1], pn: usize| {
-        assume(bn <= 2 && pn == 1);
-        let base = Https::from_bytes(mkbytes([b'h', b't', b't', b'p', b's', b':', b'/', b'/', b'h', b[0], b[1]], 9 + bn));
-        if let Ok(base) = base {
-            assert!(base.as_slice().len() == 9 + bn, "text unchanged");
-            assert!(8 + base.authority().len() + base.path().len() == 9 + bn, "accessors recompose");
-            if let Ok(j) = base.join(&p[..pn]) {
-                let re = Https::from_bytes(Bytes::copy_from_slice(j.as_slice()));
-                assert!(matches!(re, Ok(ref x) if *x == j && x.path_idx == j.path_idx), "join result re-parses to an equal value");
-                assert!(j.authority().len() == base.authority().len() && j.eq_authority(&base), "join keeps the authority");
-                if let Some(par) = j.parent() {
-                    assert!(par.eq_authority(&j), "parent keeps the authority");
-                    assert!(matches!(Https::from_bytes(Bytes::copy_from_slice(par.as_slice())), Ok(ref x) if *x == par), "parent re-parses");
-                }
-            }
-        }
-    }}
-
-    /// recording hasher (fixed slots, no allocation)
-    #[derive(PartialEq, Eq)]
-    struct Rec { n: usize, b: [u8; 24] }
-    impl hash::Hasher for Rec {
-        fn finish(&self) -> u64 { 0 }
-        fn write(&mut self, bytes: &[u8]) { let mut i = 0; while i < bytes.len() { self.write_u8(bytes[i]); i += 1; } }
-        fn write_u8(&mut self, i: u8) { assert!(self.n < 24, "recording hasher overflow"); self.b[self.n] = i; self.n += 1; }
-        fn write_usize(&mut self, i: usize) { self.write_u8(i as u8) }
-    }
-    fn fed<T: hash::Hash>(t: &T) -> Rec { let mut r = Rec { n: 0, b: [0; 24] }; t.hash(&mut r); r }
-
-    //@harness rsync_eq_hash_kb Kb fn=PartialEq/Hash(Rsync) bound="rsync://<a>/<m>/p vs Rsync://<b>/<n>/p: four symbolic octets" timeout=1500
-    verif_harness!{ #[kani::unwind(30)] rsync_eq_hash_kb; |a: u8, m: u8, b: u8, n: u8| {
-        let x = Rsync::from_bytes(mkbytes([b'r', b's', b'y', b'n', b'c', b':', b'/', b'/', a, b'/', m, b'/', b'p'], 13));
-        let y = Rsync::from_bytes(mkbytes([b'R', b's', b'Y', b'n', b'c', b':', b'/', b'/', b, b'/', n, b'/', b'p'], 13));
-        if let (Ok(x), Ok(y)) = (x, y) {
-            let want = a.to_ascii_lowercase() == b.to_ascii_lowercase() && m == n;
-            assert!((x == y) == want, "rsync equality: scheme and authority case-insensitive, the rest exact");
-            assert!((y == x) == want, "symmetric");
-            if x == y { assert!(fed(&x) == fed(&y), "equal rsync URIs hash equally"); }
-        }
-    }}
-    //@harness https_eq_hash_kb Kb fn=PartialEq/Hash(Https) bound="https://<a>/<p> vs HTtps://<b>/<q>: four symbolic octets" timeout=1500
-    verif_harness!{ #[kani::unwind(30)] https_eq_hash_kb; |a: u8, p: u8, b: u8, q: u8| {
-        let u = Https::from_bytes(mkbytes([b'h', b't', b't', b'p', b's', b':', b'/', b'/', a, b'/', p], 11));
-        let v = Https::from_bytes(mkbytes([b'H', b'T', b't', b'p', b's', b':', b'/', b'/', b, b'/', q], 11));
-        if let (Ok(u), Ok(v)) = (u, v) {
-            let want = a.to_ascii_lowercase() == b.to_ascii_lowercase() && p == q;
-            assert!((u == v) == want, "https equality");
-            if u == v { assert!(fed(&u) == fed(&v), "equal https URIs hash equally"); }
+    //@harness https_parse_kb_n5 Kb fn=Https::from_bytes bound="https:// followed by at most 5 symbolic octets" timeout=1500
+    verif_harness!{ #[kani::unwind(16)] https_parse_kb_n5; |t: [u8; 5], n: usize| {
+        assume(n <= 5);
+        let a = [b'h', b't', b't', b'p', b's', b':', b'/', b'/', t[0], t[1], t[2], t[3], t[4]];
+        let len = 8 + n;
+        let r = Https::from_bytes(mkbytes(a, len));
+        if let Ok(u) = r {
+            let s = u.as_slice();
+            assert!(s.len() == len, "text unchanged (length)");
+            let mut i = 0;
+            while i < 13 { if i < len { assert!(s[i] == a[i], "text unchanged"); assert!(permitted(s[i]), "only permitted characters"); } i += 1; }
+            // path_idx is the first slash behind the scheme separator, or the end of the text
+            assert!(u.path_idx >= 8 && u.path_idx <= len, "path index in range");
+            assert!(u.path_idx == len || s[u.path_idx] == b'/', "path starts with a slash");
+            let mut k = 8;
+            while k < 13 { if k < u.path_idx { assert!(s[k] != b'/', "authority contains no slash"); } k += 1; }
+            assert!(8 + u.authority().len() + u.path().len() == len, "accessors recompose");
         }
     }}
 }
